@@ -79,9 +79,28 @@ class Enc:
         if isinstance(st, ast.Expr) and isinstance(st.value, ast.Constant):
             return None
         if isinstance(st, ast.If):
+            test_ = subst_expr(st.test, loc)
+            if buf is not None and self.off is not None:
+                # the number of octets generated so far is known to the interpretation
+                off_ = self.off
+
+                class _Len(ast.NodeTransformer):
+                    def visit_Call(self_, n_):
+                        self_.generic_visit(n_)
+                        if isinstance(n_.func, ast.Name) and n_.func.id == "len" and len(n_.args) == 1 \
+                                and isinstance(n_.args[0], ast.Name) and n_.args[0].id == buf:
+                            return ast.copy_location(ast.Constant(value=off_), n_)
+                        return n_
+                from pyfront import clone as _cl2
+                test_ = _Len().visit(_cl2(test_))
             try:
-                v = self.ev(mod, subst_expr(st.test, loc), loc)
+                v = self.ev(mod, test_, loc)
             except (Unknown, Raised) as e:
+                if not st.orelse and st.body and all(isinstance(x, (ast.Raise, ast.Expr)) for x in st.body) and isinstance(st.body[-1], ast.Raise) \
+                        and not any(isinstance(c_, ast.Call) and not canon(c_.func).startswith(("log.", "len")) and not canon(c_.func).endswith(("Error", "Exception"))
+                                    for x in st.body for c_ in ast.walk(x)):
+                    # a consistency check that only raises: the layout describes the datagrams that ARE produced
+                    return ("buf", buf) if buf else None
                 raise AnalysisError("layout: condition does not fold in scenario: %s (%s)" % (canon(st.test), e))
             for s in (st.body if v else st.orelse):
                 r = self.stmt(s, c, m, loc, depth, buf)
